@@ -29,7 +29,7 @@ IDENTITY = "ipv8/attestation/identity/database.py"
 WALLET = "ipv8/attestation/wallet/database.py"
 CALLERS = ["ipv8/attestation/identity/manager.py", "ipv8/attestation/identity/community.py",
            "ipv8/attestation/wallet/community.py", IDENTITY, WALLET]
-DEST = "/verif/coq/gen/G19_db.v"
+DEST = os.path.join(os.path.dirname(os.path.dirname(os.path.dirname(os.path.abspath(__file__)))), "coq", "gen", "G19_db.v")
 
 WRITE_SQL = re.compile(r"^\s*(INSERT|UPDATE|DELETE|REPLACE|ALTER|CREATE|DROP|VACUUM|PRAGMA|BEGIN|COMMIT|ROLLBACK|SAVEPOINT|RELEASE)\b", re.I)
 
